@@ -11,6 +11,7 @@ package main
 //   2004 (mode packets lens)    util.NewProtoStream SendMsg*, then RecvMsg* over a fragmenting reader
 //   2005 ((size seed)..)        fsutil.VerifBuffer
 //   2007 (mode ((packets lens)..) schedule)  several protoStreams in one process, interleaved (c20_streams.go)
+//   2008 (sel (op..))           histories on ONE Stat / Packet object: mutations, Reset, every encode path (c20_history.go)
 //   2006 (mode (stat..) [cut])  listing records (LE length + VT bytes) through the real buffer, parsed back (c20_listing.go)
 // Harness-detected anomalies are encoded as output values no model can produce:
 //   (#ffff msg) panic, (#fffe) hang, (#fffd what ..) aliasing / pooled-decode mismatch.
@@ -104,76 +105,91 @@ func run2001(in Sx) Sx {
 				}
 			}
 		}
-		var b []byte
-		var err error
-		var size int
-		sized := func(enc func([]byte) (int, error)) {
-			buf := make([]byte, size)
-			var n int
-			n, err = enc(buf)
-			if err == nil {
-				if n < 0 || n > len(buf) {
-					panic(fmt.Sprintf("encoder reports %d bytes written into a %d-byte buffer", n, len(buf)))
-				}
-				b = buf[len(buf)-n:]
-			}
-		}
 		if sel&1 == 0 {
 			s := SxStat(in.L[1])
 			fix(s)
-			size = s.SizeVT()
-			switch path {
-			case 0:
-				b, err = s.MarshalVT()
-			case 1:
-				b, err = s.Marshal()
-			case 2:
-				sized(s.MarshalToSizedBufferVT)
-			case 3:
-				sized(s.MarshalToSizedBufferVTStrict)
-			case 4:
-				sized(s.MarshalToVT)
-			default:
-				sized(s.MarshalToVTStrict)
-			}
-		} else {
-			p := SxPacket(in.L[1])
-			fix(p.Stat)
-			size = p.Size()
-			switch path {
-			case 0:
-				b, err = p.MarshalVT()
-			case 1:
-				b, err = p.Marshal()
-			case 2:
-				sized(p.MarshalToSizedBufferVT)
-			case 3:
-				sized(p.MarshalToSizedBufferVTStrict)
-			case 4:
-				sized(p.MarshalTo)
-			case 5:
-				sized(p.MarshalToVTStrict)
-			default:
-				var wbuf bytes.Buffer
-				ws := util.NewProtoStream(context.Background(), nil, &wbuf)
-				err = ws.SendMsg(p)
-				if err == nil {
-					w := wbuf.Bytes()
-					if len(w) < 4 {
-						return L(N(0xfffd), S("short-frame"))
-					}
-					if h := int(uint32(w[0])<<24 | uint32(w[1])<<16 | uint32(w[2])<<8 | uint32(w[3])); h != size {
-						return L(N(0xfffd), S("header-differs-from-size"), NI(h), NI(size))
-					}
-					b = append([]byte{}, w[4:]...)
-				}
-			}
+			return c20EncodeStat(s, path)
 		}
-		if err != nil {
-			return L(N(0))
-		}
-		return L(B(append([]byte{}, b...)), NI(size))
+		p := SxPacket(in.L[1])
+		fix(p.Stat)
+		return c20EncodePacket(p, path)
 	})
+}
+
+// into a caller-provided buffer of the announced size; the encoders fill it from the end
+func c20Sized(size int, enc func([]byte) (int, error)) ([]byte, error) {
+	buf := make([]byte, size)
+	n, err := enc(buf)
+	if err != nil {
+		return nil, err
+	}
+	if n < 0 || n > len(buf) {
+		panic(fmt.Sprintf("encoder reports %d bytes written into a %d-byte buffer", n, len(buf)))
+	}
+	return buf[len(buf)-n:], nil
+}
+
+// one encoding of the CURRENT value of s on the given path -> (bytes size) | (#0)
+func c20EncodeStat(s *types.Stat, path int) Sx {
+	var b []byte
+	var err error
+	size := s.SizeVT()
+	switch path {
+	case 0:
+		b, err = s.MarshalVT()
+	case 1:
+		b, err = s.Marshal()
+	case 2:
+		b, err = c20Sized(size, s.MarshalToSizedBufferVT)
+	case 3:
+		b, err = c20Sized(size, s.MarshalToSizedBufferVTStrict)
+	case 4:
+		b, err = c20Sized(size, s.MarshalToVT)
+	default:
+		b, err = c20Sized(size, s.MarshalToVTStrict)
+	}
+	if err != nil {
+		return L(N(0))
+	}
+	return L(B(append([]byte{}, b...)), NI(size))
+}
+
+func c20EncodePacket(p *types.Packet, path int) Sx {
+	var b []byte
+	var err error
+	size := p.Size()
+	switch path {
+	case 0:
+		b, err = p.MarshalVT()
+	case 1:
+		b, err = p.Marshal()
+	case 2:
+		b, err = c20Sized(size, p.MarshalToSizedBufferVT)
+	case 3:
+		b, err = c20Sized(size, p.MarshalToSizedBufferVTStrict)
+	case 4:
+		b, err = c20Sized(size, p.MarshalTo)
+	case 5:
+		b, err = c20Sized(size, p.MarshalToVTStrict)
+	default:
+		var wbuf bytes.Buffer
+		ws := util.NewProtoStream(context.Background(), nil, &wbuf)
+		err = ws.SendMsg(p)
+		if err == nil {
+			w := wbuf.Bytes()
+			if len(w) < 4 {
+				return L(N(0xfffd), S("short-frame"))
+			}
+			if h := int(uint32(w[0])<<24 | uint32(w[1])<<16 | uint32(w[2])<<8 | uint32(w[3])); h != size {
+				return L(N(0xfffd), S("header-differs-from-size"), NI(h), NI(size))
+			}
+			b = append([]byte{}, w[4:]...)
+		}
+	}
+	if err != nil {
+		return L(N(0))
+	}
+	return L(B(append([]byte{}, b...)), NI(size))
 }
 
 // the generator itself must not die when the real encoder panics on a generated value
@@ -1027,6 +1043,7 @@ func genC20(g *Gen) {
 		g.Emit(0x2004, in, n >= 1, cls+"+eof-with-data")
 	}
 	c20GenReaderBehaviour(g) // errors reported together with data, at and off buffer boundaries (c20_reader.go)
+	c20GenHistories(g)       // one object: size / encode / send, mutate, encode again ... (c20_history.go)
 	c20GenStreams(g)         // several streams in one process, RecvMsg calls interleaved by a gated reader (c20_streams.go)
 
 	// ---- (5) buffer
